@@ -268,6 +268,8 @@ func checkC05(c *Ctx) {
 	ruleW9(c, queueOwner, 2)
 	ruleD9v(c, map[string]bool{"pubsub": true}, 3)
 	ruleQueueLinks(c)
+	ruleTracker2(c)
+	ruleN5(c)
 }
 
 func checkC06(c *Ctx) {
@@ -287,6 +289,7 @@ func checkC06(c *Ctx) {
 	ruleD9v(c, map[string]bool{"pubsub": true}, 3)
 	ruleX7(c)
 	ruleX10(c, "pubsub", "Deque", 8)
+	ruleTracker2(c)
 }
 
 func checkC07(c *Ctx) {
@@ -331,6 +334,7 @@ func checkC09(c *Ctx) {
 	ruleForcePush(c)
 	ruleX10(c, "pubsub", "Deque", 8)
 	ruleD9v(c, map[string]bool{"pubsub": true}, 3)
+	ruleTracker2(c)
 	// Broker.Wait and the parallel dispatch wait on a fun.WaitGroup
 	wgOwner := map[string]bool{"fun.WaitGroup": true}
 	condRules(c, wgOwner, map[string]int{"W1": 1, "W2": 1, "W2b": 1, "W3": 1, "W4": 2, "W6": 1, "W8": 1})
